@@ -411,7 +411,9 @@ func (fc *funcContext) translateExpr(expr ast.Expr) *expression {
 				}
 				return fc.formatExpr("%e / %e", e.X, e.Y)
 			case token.REM:
-				return fc.formatExpr(`(%1s = %2e %% %3e, %1s === %1s ? %1s : $throwRuntimeError("integer divide by zero"))`, fc.newLocalVariable("_r"), e.X, e.Y)
+				// JavaScript's % keeps the sign of the dividend even for a zero result;
+				// adding zero turns -0 into +0, which integers don't have.
+				return fc.formatExpr(`(%1s = %2e %% %3e, %1s === %1s ? %1s + 0 : $throwRuntimeError("integer divide by zero"))`, fc.newLocalVariable("_r"), e.X, e.Y)
 			case token.SHL, token.SHR:
 				op := e.Op.String()
 				if e.Op == token.SHR && isUnsigned(basic) {
